@@ -51,6 +51,11 @@ void h_aggverify(void) {
     if (len_ok && wpos >= 64 && wpos < 64 + 96 * (uint64_t)n) { size_t t = (wpos - 64) / 96, o = (wpos - 64) % 96;
         FOR_IDX(k, t) verif_c17_wexp = o < 32 ? aggsig[32 * k + o] : o < 64 ? pks[k].data[31 - (o - 32)] : msgs[32 * k + (o - 64)]; }
 
+#ifdef C17_EARLY
+    /* EARLY-EXIT variant: only calls the specification rejects before the loop (misuse or wrong length), n and the length unbounded;
+     * a call that nevertheless enters the loop trips the unwinding assertion */
+    __CPROVER_assume(!((use_pk || n == 0) && (use_msgs || n == 0) && use_agg && built) || !len_ok);
+#endif
     ret = secp256k1_schnorrsig_aggverify(&ctx, use_pk ? pks : NULL, use_msgs ? msgs : NULL, n, use_agg ? aggsig : NULL, alen);
     WITNESS_BUF(aggw, aggsig, alen, 64);
 
